@@ -52,10 +52,9 @@ func (h hostEnd) Read(p []byte) (int, error) {
 		return 0, nil
 	}
 	for len(l.toHost) == 0 {
-		if l.hostClosed {
-			return 0, io.ErrClosedPipe
-		}
-		if l.tncClosed {
+		// After the host closed its own end reads end with io.EOF as well: the library's decoder
+		// retries any other error forever (a busy loop that would outlive the scenario).
+		if l.hostClosed || l.tncClosed {
 			return 0, io.EOF
 		}
 		l.hostWaiting = true
